@@ -331,10 +331,14 @@ def _acquired_before_subscribe(ctx, a, site, sub, cone):
         i_acq = next((i for i, e in enumerate(p.events) if e.kind == "call" and isinstance(e.node, ast.Call) and same_acquisition(e.node)), None)
         if i_sub is None:
             continue  # subscribe=False path: not in the subscriber list at all
-        if i_acq is None or i_acq > i_sub:
+        if i_acq is None:
+            # optional dependency not acquired on this constructor path
+            # (e.g. the feature is switched off): nothing to order
+            continue
+        if i_acq > i_sub:
             return p.describe()
         any_ok = True
-    return True if any_ok else ["no subscribing constructor path found"]
+    return True if any_ok else ["the dependency is never acquired before subscribing on any constructor path"]
 
 
 def _kwtext(v):
